@@ -209,10 +209,16 @@ class C01(Prop):
         # the whole catalogue as stateless cursors (the hash joins / random tables included)
         ents = catalogue.entries()
         reps = 1 if tier == 'quick' else 6
+        # two directed schedules for every form: both iterators started, one runs to its end and is closed while the other is
+        # in mid-table, then the other one finishes (in either order of creation)
+        d1 = ((0,), (0,), (1, 0), (1, 1), (1, 1)) + ((1, 0),) * 8 + ((2, 0),) + ((1, 1),) * 8
+        d2 = ((0,), (0,), (1, 1), (1, 0), (1, 0)) + ((1, 1),) * 8 + ((2, 1),) + ((1, 0),) * 8
         for e in ents:
             for _ in range(reps):
                 seed = rng.randrange(1 << 30)
                 yield Case('stateless_run', (e['name'], seed, random_ops(rng, maxlen=12)))
+            yield Case('stateless_run', (e['name'], rng.randrange(1 << 30), d1))
+            yield Case('stateless_run', (e['name'], rng.randrange(1 << 30), d2))
         for nm in ('randomtable', 'dummytable'):
             yield Case('same_view', (nm, rng.randrange(1 << 20)))
         for nm in ('randomtable', 'dummytable'):
